@@ -43,6 +43,9 @@ type ChainCfg struct {
 	RuleStyle        int  // 0 strict (MATCH + DISALLOW *), 1 lenient (ALLOW *), 2 random
 	OddStepNames     bool // C15: step names with pattern metacharacters etc. (crash search)
 	CertSteps        bool
+	TwinSubPct       int    // chance (percent) that a SECOND functionary of the step signs the very same sublayout and vouches for it with a link directory of its own (equal, emptied, missing, or one link short)
+	ProdMatchedPct   int    // chance (percent, default 35) that an inspection's PRODUCT rules hold the directory after the command against the last step's products
+	CleanSteps       bool   // the step part of the chain is flawless (every listed key defined, thresholds reachable, no link short): what follows the step checks decides the verdict
 	UncleanNamesPct  int    // chance (percent) that every link of the chain records its artifacts under names that are not clean paths ("./src/main.c", as `in-toto run -m ./src/main.c` records them)
 	SameNamePct      int    // chance (percent) that the delegating step of a nested level carries the NAME and the FUNCTIONARY of the step that delegated to this level
 	SubFlattenPct    int    // chance (percent) that a sublayout's links are put into the parent's directory (no sublayout directory)
@@ -59,6 +62,8 @@ type ChainCfg struct {
 }
 
 type Level struct {
+	Payload    JObj // the layout itself (what LayoutFile wraps and signs)
+	DSSE       bool
 	LayoutFile JObj
 	Signers    []*TestKey
 	Dir        map[string]any // {"files": {...}, "subs": {...}}
@@ -213,7 +218,7 @@ func (g *chainGen) buildLevel(depth int, initial Files, signers []*TestKey, name
 			fs[0] = g.parentFunc
 		}
 		threshold := cfg.Thresholds[rng.Intn(len(cfg.Thresholds))]
-		if threshold > nf && rng.Chance(85) {
+		if threshold > nf && (cfg.CleanSteps || rng.Chance(85)) {
 			threshold = nf
 		}
 		mats := cur
@@ -231,7 +236,7 @@ func (g *chainGen) buildLevel(depth int, initial Files, signers []*TestKey, name
 		pubkeys := []any{}
 		for _, f := range fs {
 			pubkeys = append(pubkeys, f.ID)
-			if !(rng.Chance(4)) { // sometimes listed but not defined
+			if cfg.CleanSteps || !(rng.Chance(4)) { // sometimes listed but not defined
 				addKey(f)
 			}
 		}
@@ -245,6 +250,7 @@ func (g *chainGen) buildLevel(depth int, initial Files, signers []*TestKey, name
 		// (seeded change c02-constraint-values-counted-not-ticked)
 		var wantDNS []any
 		leafDNS := []string{"a.example.org"}
+		dnsDecides := false
 		certOnly := 0
 		if cfg.CertSteps && top && rng.Chance(60) {
 			certLeafKey = pool()[3]
@@ -255,6 +261,10 @@ func (g *chainGen) buildLevel(depth int, initial Files, signers []*TestKey, name
 			wantCertOnly := cfg.CertOnlyPct > 0 && rng.Chance(cfg.CertOnlyPct)
 			if wantCertOnly {
 				certChain = rng.Pick([]string{"direct", "inter-layout", "inter-layout", "inter-caller"})
+			}
+			dnsDecides = rng.Chance(10) && !wantCertOnly
+			if dnsDecides {
+				certChain = rng.Pick([]string{"direct", "inter-layout"})
 			}
 			cs := setupChain(certChain)
 			if certChain == "system-trusted-no-roots" {
@@ -278,7 +288,13 @@ func (g *chainGen) buildLevel(depth int, initial Files, signers []*TestKey, name
 			}
 			constraint := O("common_name", rng.Pick([]string{"*", "builder", "builder", "other"}), "dns_names", []any{"*"}, "emails", []any{"*"},
 				"organizations", []any{rng.Pick([]string{"*", "org-one"})}, "roots", []any{"*"}, "uris", []any{"*"})
-			if rng.Chance(35) {
+			// (a tenth of the certificate steps is built so that the verdict hinges on exactly this:
+			// a chain that validates, a holder needed for the threshold, no other defect in the step)
+			if dnsDecides {
+				constraint = constraint.Set("common_name", "*")
+				lv.Feat = append(lv.Feat, "dns-decides")
+			}
+			if dnsDecides || rng.Chance(35) {
 				wantDNS = []any{"a.example.org", "b.example.org"}
 				switch rng.Intn(10) {
 				case 0, 1, 2:
@@ -350,7 +366,7 @@ func (g *chainGen) buildLevel(depth int, initial Files, signers []*TestKey, name
 		if cfg.ShortPct > 0 {
 			shortPct = cfg.ShortPct
 		}
-		if rng.Chance(shortPct) && honest > 0 {
+		if rng.Chance(shortPct) && honest > 0 && !dnsDecides && !cfg.CleanSteps {
 			honest-- // one too few
 			lv.Feat = append(lv.Feat, "short")
 		}
@@ -358,7 +374,7 @@ func (g *chainGen) buildLevel(depth int, initial Files, signers []*TestKey, name
 			honest = 0
 		}
 		certNeeded := false
-		if certLeafKey != nil && honest > 0 && rng.Chance(50) {
+		if certLeafKey != nil && honest > 0 && (dnsDecides || rng.Chance(50)) {
 			// one of the required links is certificate-signed (mixed key/certificate step)
 			honest--
 			certNeeded = true
@@ -431,6 +447,35 @@ func (g *chainGen) buildLevel(depth int, initial Files, signers []*TestKey, name
 				p = prods
 				lv.Feat = append(lv.Feat, "sublayout")
 				lv.Feat = append(lv.Feat, sub.Feat...)
+				if cfg.TwinSubPct > 0 && k+1 < honest && rng.Chance(cfg.TwinSubPct) {
+					// the NEXT functionary signs the very same sublayout; what it vouches for is what lies
+					// in ITS directory <step>.<its id> - verified on its own, whatever the first one's
+					// directory held (seeded changes c05-identical-sublayout-summary-reused,
+					// c08-identical-sublayout-resolved-once)
+					f2 := fs[k+1]
+					put(shortID(f2.ID), g.wrapSign(sub.Payload, sub.DSSE, []sigSpec{{key: f2}}))
+					twin := deepCopy(sub.Dir).(map[string]any)
+					switch rng.Intn(4) {
+					case 0:
+						subs[name+"."+shortID(f2.ID)] = twin
+						lv.Feat = append(lv.Feat, "twin-sub-equal")
+					case 1:
+						subs[name+"."+shortID(f2.ID)] = map[string]any{"files": map[string]any{}, "subs": map[string]any{}}
+						lv.Feat = append(lv.Feat, "twin-sub-emptied")
+					case 2:
+						lv.Feat = append(lv.Feat, "twin-sub-no-directory")
+					default:
+						if tf, ok := twin["files"].(map[string]any); ok {
+							for _, fn := range sortedKeys(tf) {
+								delete(tf, fn)
+								break
+							}
+						}
+						subs[name+"."+shortID(f2.ID)] = twin
+						lv.Feat = append(lv.Feat, "twin-sub-link-removed")
+					}
+					k++ // f2's evidence is the twin
+				}
 				continue
 			}
 			lt := tweakAlg(linkTree(name, mats, p, cmd), algTweak)
@@ -666,6 +711,24 @@ func (g *chainGen) buildLevel(depth int, initial Files, signers []*TestKey, name
 				iname = stepNames[[]int{0, len(stepNames) - 1}[rng.Intn(2)]]
 				lv.Feat = append(lv.Feat, "insp-name-clash")
 			}
+			// (decided here because it biases the command) the files AFTER the command are held against
+			// the last step's products as well
+			pmPct := 35
+			if cfg.ProdMatchedPct > 0 {
+				pmPct = cfg.ProdMatchedPct
+			}
+			prodMatched := prevName != "" && top && rng.Chance(pmPct)
+			lenientMats := prodMatched && rng.Chance(40)
+			if prodMatched && cfg.Prop == "C09" && rng.Chance(50) {
+				kind = "modify"
+			}
+			if prodMatched {
+				tag := "pm:" + kind
+				if lenientMats {
+					tag += "+lenient"
+				}
+				lv.Feat = append(lv.Feat, tag)
+			}
 			c := catalogueCmd(rng, iname, cfg.Marker, kind)
 			g.w.addCmd(c)
 			matRules := []any{}
@@ -675,7 +738,13 @@ func (g *chainGen) buildLevel(depth int, initial Files, signers []*TestKey, name
 				} else {
 					matRules = append(matRules, []any{"MATCH", "*", "WITH", "PRODUCTS", "FROM", prevName})
 				}
-				matRules = append(matRules, []any{"ALLOW", "*.link"}, []any{"ALLOW", "new-*"}, []any{"DISALLOW", "*"})
+				matRules = append(matRules, []any{"ALLOW", "*.link"}, []any{"ALLOW", "new-*"})
+				if rng.Bool() {
+					// the same three consuming rules in another order (they describe disjoint files): which
+					// of them comes last must not matter to anything that follows
+					matRules[0], matRules[2] = matRules[2], matRules[0]
+				}
+				matRules = append(matRules, []any{"DISALLOW", "*"})
 			} else {
 				matRules = g.rules("", 2, true, cur)
 			}
@@ -698,7 +767,11 @@ func (g *chainGen) buildLevel(depth int, initial Files, signers []*TestKey, name
 				}
 			}
 			prodRules := g.rules("", rng.Intn(3), false, cur)
-			if prevName != "" && rng.Chance(35) {
+			if lenientMats {
+				// everything is admitted before the command; the product rules alone vet the directory
+				matRules = []any{[]any{"ALLOW", "*"}}
+			}
+			if prodMatched {
 				// the files AFTER the command are held against the last step's products as well, and the
 				// list opens with a rule that consumes nothing (a DISALLOW that matches nothing, a REQUIRE of
 				// a file that is there): what the material rules consumed must not be missing from the
@@ -778,6 +851,7 @@ func (g *chainGen) buildLevel(depth int, initial Files, signers []*TestKey, name
 	if !top {
 		dsse = cfg.LinkDSSE
 	}
+	lv.Payload, lv.DSSE = layout, dsse
 	lv.LayoutFile = g.wrapSign(layout, dsse, specs)
 	lv.Dir = map[string]any{"files": files, "subs": subs}
 	if top {
